@@ -12,7 +12,7 @@ with every float64 written as an exact rational, and closed by interval arithmet
 coq/Proofs/Carto_base.v).  The goal files are compiled by parallel `coqc` processes, each under
 `timeout`.  Output: the FAIL/STATS/SAMPLE protocol of tools/check.py.
 """
-import argparse, math, os, re, struct, subprocess, sys, time
+import argparse, decimal, math, os, re, struct, subprocess, sys, time
 from concurrent.futures import ThreadPoolExecutor
 from fractions import Fraction
 
@@ -36,6 +36,58 @@ def rterm(x):
     return "(%d / %d)" % (fr.numerator, fr.denominator)
 
 
+_DCTX = decimal.Context(prec=70)
+_PI = decimal.Decimal("3.14159265358979323846264338327950288419716939937510582097494459230781640628620899862803")
+
+
+def _dsincos(x):
+    """(sin x, cos x) of a Decimal |x| < 8 by the Taylor series, about 60 correct digits"""
+    c = _DCTX
+    s, t, term, n = decimal.Decimal(0), decimal.Decimal(1), decimal.Decimal(1), 0
+    tiny = decimal.Decimal(10) ** -68
+    # term = x^n / n!
+    while True:
+        n += 1
+        term = c.divide(c.multiply(term, x), decimal.Decimal(n))
+        if n % 4 == 1:
+            s = c.add(s, term)
+        elif n % 4 == 2:
+            t = c.subtract(t, term)
+        elif n % 4 == 3:
+            s = c.subtract(s, term)
+        else:
+            t = c.add(t, term)
+        if abs(term) < tiny and n > 8:
+            return s, t
+
+
+def _drad(fr):
+    c = _DCTX
+    return c.divide(c.multiply(c.divide(decimal.Decimal(fr.numerator), decimal.Decimal(fr.denominator)), _PI),
+                    decimal.Decimal(180))
+
+
+def direction_cosine_is_zero(lon0, lat0, lon, lat):
+    """A = cos(lat) sin(dlon) or B = cos(lat0) sin(lat) - sin(lat0) cos(lat) cos(dlon) is 0 over the reals"""
+    c = _DCTX
+    dl = Fraction(lon) - Fraction(lon0)          # exact
+    if dl % 180 == 0:                            # A = 0 off the central meridian (|lat| < 90 on the domain)
+        return True
+    if abs(Fraction(lat0)) == 90 and dl % 90 == 0:
+        return True
+    if lat0 == 0 and lat == 0:
+        return True
+    s0, c0 = _dsincos(_drad(Fraction(lat0)))
+    s1, c1 = _dsincos(_drad(Fraction(lat)))
+    dlm = dl % 360
+    if dlm > 180:
+        dlm -= 360
+    sd, cd = _dsincos(_drad(dlm))
+    A = c.multiply(c1, sd)
+    B = c.subtract(c.multiply(c0, s1), c.multiply(c.multiply(s0, c1), cd))
+    return min(abs(A), abs(B)) < decimal.Decimal(10) ** -40
+
+
 def goals_of_case(f):
     """f: fields of a flagged case line -> list of (name, statement, script)"""
     cid, kind, cls = f[0], f[1], f[2]
@@ -56,11 +108,10 @@ def goals_of_case(f):
     out = []
     if kind == "azeq" and not centre_in and lon != cfgv[1]:
         # atan2(A, B) of Forward: a direction cosine that is exactly 0 over the reals (pole as centre and
-        # a longitude difference of 90 or 180 degrees) cannot be given a sign by interval arithmetic
-        p0, p1, dl = math.radians(cfgv[2]), math.radians(lat), math.radians(lon - cfgv[1])
-        A = math.cos(p1) * math.sin(dl)
-        B = math.cos(p0) * math.sin(p1) - math.sin(p0) * math.cos(p1) * math.cos(dl)
-        if min(abs(A), abs(B)) < 1e-12:
+        # a longitude difference of 90 or 180 degrees) cannot be given a sign by interval arithmetic.
+        # Decided on the exact rational inputs with 60 significant digits (a direction cosine that is
+        # merely small, next to the centre or next to such a meridian, is not degenerate).
+        if direction_cosine_is_zero(cfgv[1], cfgv[2], lon, lat):
             return None
     for comp, val in (("fwd_x", X), ("fwd_y", Y)):
         stmt = "Rabs (%s_%s %s %s %s - %s) <= %s" % (kind, comp, cfg, L, P, val, epsf)
